@@ -9,7 +9,8 @@ PROFILES = ["release"]
 SHRINK_SEP = None
 RULE = ("cases: exhaustive cube for egcd, exhaustive square for gcd/lcm (i64), every (a1,m1,a2,m2) with small moduli for crt, "
         "every 8-bit operand pair for i8/u8 (sampled 1/3 in quick), boundary-biased samples up to 2^20 (egcd, crt) and over the "
-        "whole range of each of the 12 integer types (gcd, lcm); non-trivial = distinct case inside the property's domain "
+        "whole range of each of the 12 integer types (gcd, lcm); a small stream of egcd/crt cases far outside the 2^20 box (operands "
+        "up to 2^62) where the property says nothing (`S any`) but the checked i64 model must reproduce every overflow panic; non-trivial = distinct case inside the property's domain "
         "(spec answer not `any`) with at least one operand of magnitude > 1")
 ASSUMPTIONS = [
     "the Lean model of rlib_gcd is hand-written; it is tied to the code by running both on the same cases",
@@ -17,9 +18,12 @@ ASSUMPTIONS = [
 ]
 MANIFEST = {
     "level": "proof",
-    "text": ("Lean 4 theorems: the modelled Euclid loop terminates and equals Int.gcd for all signs; lcm = Int.lcm; egcd returns a pair "
-             "exactly when gcd | c and the pair solves a*x+b*y=c; crt returns the unique solution in [0, lcm) exactly when the "
-             "congruences are compatible. The hand-written model is tied to rlib_gcd by a differential correspondence run on every check."),
+    "text": ("Lean 4 theorems: the modelled Euclid loop terminates and equals Int.gcd for all signs; lcm = Int.lcm (division by zero for "
+             "(0,0)); egcd returns a pair exactly when gcd | c, the pair solves a*x+b*y=c, |x| <= |c|/g*max(1,|b|/g), |y| <= |c|/g*max(1,|a|/g); "
+             "crt returns the unique solution in [0, lcm) exactly when the congruences are compatible, never an error on its domain; the "
+             "checked-arithmetic i64 instantiations of egcd and crt (what the driver executes) never overflow inside the 2^20 box and equal "
+             "the unbounded functions; gcd/lcm at any integer type do not overflow when |operands| and result are representable. "
+             "The hand-written model is tied to rlib_gcd by a differential correspondence run on every check."),
     "note": ("Trusted: Lean kernel, axioms propext/Classical.choice/Quot.sound, the hand-written model (checked against the code only on the "
              "generated cases: exhaustive small scope + boundary-biased samples over all 12 integer types), harness and driver plumbing."),
     "technique": "Lean 4 proof of a hand-written model + differential correspondence check against the Rust crate",
